@@ -150,3 +150,29 @@ Inductive gww :=
 | WwOn (on callee : bytes) (pos : bytes)
       (* err := <on>(it, func(l *T) error { bytes, err := l.M(); b.Write(bytes); return err })     callee = "T.M" *)
 | WwUnrecognised (src pos : bytes).
+
+(* ------------------------------------------------------------------ the frames of the struct methods (builder b55)
+   The bodies of (T) GobEncode / ( *T) GobDecode of the 14 vocabulary struct types, statement by statement, in source
+   order (Gen/GobW.gobw_frames, Gen/GobR.gobr_frames; translator/gobframes.go).  What a statement says beyond its
+   shape is carried by the entry; a statement of any other shape is an Unrecognised entry.  The interpreters are in
+   Model/GobFrame.v. *)
+Inductive gfw :=
+| FwMakeMap (pos : bytes)                        (* mm := make(map[string][]byte) *)
+| FwCallMap (fn arg : bytes) (pos : bytes)
+      (* hasData, err := <fn>(mm, A)     arg = "recv" (A is the receiver) | "&recv" (its address) | the text of any other A *)
+| FwErrRet (pos : bytes)                         (* if err != nil { return nil, err } *)
+| FwNoDataRet (neg : bool) (what : bytes) (pos : bytes)
+      (* if !hasData { return W, nil }   neg = true;   if hasData { return W, nil }   neg = false
+         what = "empty" (W is []byte{}) | "nil" | the text of any other W *)
+| FwBuffer (pos : bytes)                         (* bb := bytes.Buffer{} *)
+| FwEncoder (pos : bytes)                        (* g := gob.NewEncoder(&bb) *)
+| FwEncodeMap (pos : bytes)                      (* if err := g.Encode(mm); err != nil { return nil, err } *)
+| FwRetBuffer (pos : bytes)                      (* return bb.Bytes(), nil *)
+| FwUnrecognised (src pos : bytes).
+
+Inductive gfr :=
+| FrRetNilIfEmpty (cmp : bytes) (pos : bytes)    (* if len(data) <cmp> 0 { return nil }     cmp = "==" in the source as it is *)
+| FrDecodeAsMap (callee : bytes) (pos : bytes)   (* mm, err := <callee>(data) *)
+| FrErrRet (pos : bytes)                         (* if err != nil { return err } *)
+| FrRetUnmap (fn arg : bytes) (pos : bytes)      (* return <fn>(mm, A)     arg as for FwCallMap *)
+| FrUnrecognised (src pos : bytes).
